@@ -688,7 +688,12 @@ BRACE_ALPHABET = list("a{},12?()|")
 FRAG_NUMS = ["0", "1", "2", "3", "9", "10", "00", "007", "15", "2147483646", "2147483647", "2147483648", "4294967295",
              "4294967296", "9223372036854775806", "9223372036854775807"]
 FRAG_ATOMS = ["a", "b", ".", "\\d", "\\D", "\\w", "\\s", "\\n", "\\t", "\\.", "\\$", "\\/", "\\a", "\\-", "\\{", "\\}", "\\]",
-              "-", ",", "1", "/", ":", "=", "!", "<", "]", "}", "{", "^", "$", "\\b", "\\B"]
+              "-", ",", "1", "/", ":", "=", "!", "<", "]", "}", "{", "^", "$", "\\b", "\\B",
+              "\\0", "\\00", "\\08", "\\cA", "\\cz", "\\c", "\\c1", "\\c_", "\\x41", "\\xfF", "\\x4", "\\xg", "\\x", "\\u0041", "\\u004",
+              "\\u", "\\uD83D\\uDE00", "\\ud83d\\ude00", "\\uD83D", "\\uDE00", "\\uDBFF\\uDC00", "\\uDC00\\uD800", "\\uD800\\u0041",
+              "\\uD83D\\u{DE00}", "\\u{41}", "\\u{0041}", "\\u{1F600}", "\\u{10FFFF}", "\\u{110000}", "\\u{00000000041}", "\\u{}",
+              "\\u{41", "\\u{g}", "\\u{ffffffffffffffffffff}", "\\k", "\\p", "\\P", "\\_", "\\e", "\\é", "é", "\U0001F600", "\\\U0001F600",
+              "c", "x", "u", "0", "D", "8"]
 FRAG_QUANTS = ["*", "+", "?", "*?", "+?", "??", "{1}", "{1,}", "{1,2}", "{2,1}", "{,1}", "{}", "{1", "{1,2", "{a}", "{1}?",
                "{0}", "{1 }", "{ 1}", "{1,2}?", "{1}{2}", "{,}", "{1,,2}", "{12,3}", "{3,12}"]
 
@@ -754,13 +759,22 @@ def compare_grammar_v8(strs):
     return len(cn) + len(cu), stats["accepted_n"] + stats["accepted_u"], mism, stats
 
 
+# alphabets for the escape syntax: `\\c`, `\\x`, `\\u`, `\\0` with what may follow them
+ESCAPE_ALPHABET = list("a\\cxu0{}41Dd?(|)")
+SURROGATE_ALPHABET = list("\\uD83dDEcC0A")
+
+
 def grammar_strings(tier, rng):
     thorough = tier == "thorough"
     strs = list(gen_exhaustive(4, FRAGMENT_ALPHABET))
     strs += list(gen_exhaustive(6 if thorough else 5, BRACE_ALPHABET))
-    strs += gen_sampled(rng, 400000 if thorough else 60000, 7, FRAGMENT_ALPHABET)
-    strs += gen_sampled(rng, 200000 if thorough else 30000, 10, BRACE_ALPHABET)
-    strs += gen_fragment_structured(rng, 300000 if thorough else 40000)
+    strs += list(gen_exhaustive(5 if thorough else 4, ESCAPE_ALPHABET))
+    strs += gen_sampled(rng, 400000 if thorough else 50000, 7, FRAGMENT_ALPHABET)
+    strs += gen_sampled(rng, 200000 if thorough else 25000, 10, BRACE_ALPHABET)
+    strs += gen_sampled(rng, 300000 if thorough else 40000, 8, ESCAPE_ALPHABET)
+    strs += gen_sampled(rng, 300000 if thorough else 30000, 12, SURROGATE_ALPHABET)
+    strs += gen_sampled(rng, 100000 if thorough else 10000, 6, SURROGATE_ALPHABET)
+    strs += gen_fragment_structured(rng, 400000 if thorough else 60000)
     if thorough:
         strs += list(gen_exhaustive(5, list("a.|()?*+:^$=!<\\dbw/]")))
     return strs
